@@ -48,6 +48,16 @@ var costFamilies = []costFamily{
 	{"nested escape in the query", func(n int) (string, string) { return "", "http://h/?a=%" + rep("25", n) + "41" }},
 	{"nested escape in the fragment", func(n int) (string, string) { return "", "http://h/#%" + rep("25", n) + "41" }},
 	{"many nested escapes", func(n int) (string, string) { return "", "http://h/" + rep("%252525252541", n) }},
+	{"escaped percent signs in the host", func(n int) (string, string) { return "", "http://" + rep("%25", n) + "/" }},
+	{"escapes in the host", func(n int) (string, string) { return "", "http://a" + rep("%41", n) + "/" }},
+	{"broken escapes in the host", func(n int) (string, string) { return "", "http://a" + rep("%zz", n) + "/" }},
+	{"lone percent signs in the host", func(n int) (string, string) { return "", "http://a" + rep("%", n) + "/" }},
+	{"lone percent signs in the user name", func(n int) (string, string) { return "", "http://" + rep("%", n) + "@h/" }},
+	{"broken escapes in the password", func(n int) (string, string) { return "", "http://u:" + rep("%zz", n) + "@h/" }},
+	{"lone percent signs in the path", func(n int) (string, string) { return "", "http://h/" + rep("%", n) }},
+	{"lone percent signs in the query", func(n int) (string, string) { return "", "http://h/?" + rep("%", n) }},
+	{"lone percent signs in the fragment", func(n int) (string, string) { return "", "http://h/#" + rep("%&", n) }},
+	{"lone percent signs in an opaque path", func(n int) (string, string) { return "", "sc:" + rep("%", n) }},
 	{"dots in the host", func(n int) (string, string) { return "", "http://a" + rep(".", n) + "b/" }},
 	{"long IDN label", func(n int) (string, string) { return "", "http://" + rep("é", n) + ".b/" }},
 	{"many IDN labels", func(n int) (string, string) { return "", "http://" + rep("é.", n) + "b/" }},
@@ -214,7 +224,7 @@ func init() {
 				c.cmpParse(d, defaultCfg, bp, in, allFields, true, "cost-family:"+f.name, i)
 			})
 		},
-		rule:    "34 repetition families (those of the property plus backslashes, encoded dot segments, deep relative resolution, invalid UTF-8, drive letters, tab/newline, IPv6/IPv4 digits) x n in {1Ki, 4Ki, 16Ki} (quick) up to 64Ki (thorough) x {default parser, GoogleSafeBrowsing, Semantic}; runtime.MemStats TotalAlloc and Mallocs around parse + every getter + String + SearchParams, minimum of 3 runs, GC disabled; after a warm-up at the largest size; violation when bytes or objects per input byte grow by more than 6x from the smallest to the largest size (quadratic growth: 16x in quick, 64x in thorough); distinct = (parser, family, n)",
+		rule:    "44 repetition families (those of the property plus backslashes, encoded dot segments, deep relative resolution, invalid UTF-8, drive letters, tab/newline, IPv6/IPv4 digits) x n in {1Ki, 4Ki, 16Ki} (quick) up to 64Ki (thorough) x {default parser, GoogleSafeBrowsing, Semantic}; runtime.MemStats TotalAlloc and Mallocs around parse + every getter + String + SearchParams, minimum of 3 runs, GC disabled; after a warm-up at the largest size; violation when bytes or objects per input byte grow by more than 6x from the smallest to the largest size (quadratic growth: 16x in quick, 64x in thorough); distinct = (parser, family, n)",
 		trusted: []string{"runtime.MemStats as the measure of allocation; wall-clock time is not measured"},
 	}
 }
